@@ -58,6 +58,7 @@ def run(ctx: Ctx):
         empties(ctx, repo.func(file, f"{cname}.is_empty"), cname)
     vehicle_setters(ctx)
     move_rule(ctx)
+    ctx.attempt(out_of_energy_helper, ctx)
     idle_rule(ctx)
     quantum(ctx)
     durations(ctx)
@@ -181,6 +182,29 @@ def vehicle_setters(ctx: Ctx):
         want = pat.format(fn.params[1])
         ok = len(ps) == 1 and flow.dump(ps[0].value) == flow.dump(flow.pat(want))
         ctx.check(ok, "D2", "DU.setter", f"Vehicle.{m} = {want[:70]}", fn, why_bad=f"returns {flow.dump(ps[0].value)[:160] if ps else '?'}", construct=f"Vehicle.{m}")
+
+
+def out_of_energy_helper(ctx: Ctx):
+    """The helper move() hands an emptied vehicle to really takes it out of service: every path that is not an error returns
+    OutOfService's enter (on the state the previous activity's exit produced, or, when that activity refuses to be left, on the state
+    at hand) — never `(None, None)` and never a transition that a refusing exit can veto."""
+    fn = ctx.repo.func(VO, "_go_out_of_service_on_empty")
+    n = 0
+    for p in flow.paths(fn.node):
+        if p.kind != "return":
+            continue
+        k = flow.classify_result(p.value)
+        if k == "error":
+            continue
+        n += 1
+        v = flow.core(p.value)
+        ok = isinstance(v, ast.Call) and isinstance(v.func, ast.Attribute) and v.func.attr == "enter" and flow.dump(v.func.value).startswith("OutOfService.build(")
+        ctx.check(ok, "D3", "GD.out-of-energy", "_go_out_of_service_on_empty ends in OutOfService.enter on every path that is not an error", fn, p.end,
+                  why_ok="delegates to OutOfService(...).enter",
+                  why_bad=f"path [{p.cond_text()[:200]}] returns `{flow.dump(p.value)[:100]}`: an activity that refuses to be left (passengers on board) vetoes the transition, the emptied "
+                          f"vehicle stays in its activity for good",
+                  construct="_go_out_of_service_on_empty:" + ("refusable" if k != "ok" else "other"))
+    ctx.require(n >= 1, "_go_out_of_service_on_empty: no non-error path")
 
 
 def move_rule(ctx: Ctx):
